@@ -446,9 +446,31 @@ def voidNormF (names : List (List B)) : Nat → List B → List B
 
 def voidNorm (s : List B) : List B := voidNormF Gomjml.Gen.Parser.voidElementsB (s.length + 1) s
 
+/-- `bytes.Index` -/
+def indexSub (pat : List B) : List B → Option Nat
+  | [] => if pat = [] then some 0 else none
+  | b :: r => if pat.isPrefixOf (b :: r) then some 0 else (indexSub pat r).map (· + 1)
+
+/-- a stretch of raw content in a CDATA section of its own -/
+def wrapPiece (s : List B) : List B := cdStart ++ replaceAll cdEnd cdEndSafe s ++ cdEnd
+
+/-- `wrapOutsideCDATA` (content that starts with a CDATA section the author wrote): the author's sections as written, every
+    stretch between and behind them in a section of its own; an unterminated section is left to the XML layer -/
+def wrapOutside : Nat → List B → List B
+  | 0, s => s
+  | fuel + 1, s =>
+    if s = [] then [] else
+    match indexSub cdStart s with
+    | none => wrapPiece s
+    | some idx =>
+      (if idx = 0 then [] else wrapPiece (s.take idx)) ++
+      (match indexSub cdEnd (s.drop idx) with
+       | none => s.drop idx
+       | some e => (s.drop idx).take (e + 3) ++ wrapOutside fuel ((s.drop idx).drop (e + 3)))
+
 /-- what is written for the content of one mj-text -/
 def wrapInner (inner : List B) : List B :=
-  if cdStart.isPrefixOf (inner.dropWhile isWs) then voidNorm inner
+  if cdStart.isPrefixOf (inner.dropWhile isWs) then wrapOutside ((voidNorm inner).length + 1) (voidNorm inner)
   else cdStart ++ replaceAll cdEnd cdEndSafe (voidNorm inner) ++ cdEnd
 
 /-- the loop of `wrapMJTextContent` over what is left of the text -/
@@ -598,10 +620,40 @@ theorem voidNormF_nl (names : List (List B)) : ∀ (fuel : Nat) (s : List B), nl
       simp only [hb', Bool.false_eq_true, if_false]
       rw [nl_cons, nl_cons, voidNormF_nl names fuel rest]
 
+theorem wrapPiece_nl (s : List B) : nl (wrapPiece s) = nl s := by
+  unfold wrapPiece
+  simp only [nl_append]
+  rw [replaceAll_nl cdEnd cdEndSafe (by decide)]
+  have h1 : nl cdStart = 0 := by decide
+  have h2 : nl cdEnd = 0 := by decide
+  omega
+
+theorem nl_take_drop (s : List B) (k : Nat) : nl (s.take k) + nl (s.drop k) = nl s := by
+  rw [← nl_append, List.take_append_drop]
+
+theorem wrapOutside_nl : ∀ (fuel : Nat) (s : List B), nl (wrapOutside fuel s) = nl s
+  | 0, s => rfl
+  | fuel + 1, s => by
+    unfold wrapOutside
+    split
+    · rename_i h; rw [h]
+    · split
+      · exact wrapPiece_nl s
+      · rename_i idx _
+        have hpre : nl (if idx = 0 then [] else wrapPiece (s.take idx)) = nl (s.take idx) := by
+          split
+          · rename_i h0; subst h0; simp [nl]
+          · exact wrapPiece_nl _
+        rw [nl_append, hpre]
+        split
+        · exact nl_take_drop s idx
+        · rename_i e _
+          rw [nl_append, wrapOutside_nl fuel, nl_take_drop (s.drop idx) (e + 3), nl_take_drop s idx]
+
 theorem wrapInner_nl (inner : List B) : nl (wrapInner inner) = nl inner := by
   unfold wrapInner voidNorm
   split
-  · exact voidNormF_nl _ _ _
+  · rw [wrapOutside_nl]; exact voidNormF_nl _ _ _
   · simp only [nl_append]
     rw [replaceAll_nl cdEnd cdEndSafe (by decide), voidNormF_nl]
     have h1 : nl cdStart = 0 := by decide
